@@ -523,6 +523,9 @@ def run_engine_fixture(chk, rid="engine-fixture"):
         _rs = retsum.compute(facts)
         _rs.update(retsum.closed_trait_summaries(facts, _rs))
         intervals.RET_RANGES.update(_rs)
+        saved_rf = dict(intervals.RET_FACTS)
+        intervals.RET_FACTS.clear()
+        intervals.RET_FACTS.update(retsum.ret_facts(facts))
         nb = ng = 0
         from .. import argsum
         asum = argsum.get(facts)
@@ -545,8 +548,8 @@ def run_engine_fixture(chk, rid="engine-fixture"):
                 chk.ob(rid, f"idiom {name}: {len(res.sites) - len(bad)} of {len(res.sites)} site(s) proved", not bad and bool(res.sites),
                        key=f"idiom|{name}", file=b.file, line=b.lo, fn=b.path,
                        detail="a standard safe idiom is no longer proved: " + "; ".join(s["why"] for s in bad)[:200])
-        chk.floor(rid, "traps", nb, 46)
-        chk.floor(rid, "safe idioms", ng, 32)
+        chk.floor(rid, "traps", nb, 47)
+        chk.floor(rid, "safe idioms", ng, 33)
         # the loop census on its own fixtures
         from ..loops import collect_loops
         lsites, _ = collect_loops(facts, [facts.crates[0]])
@@ -583,6 +586,9 @@ def run_engine_fixture(chk, rid="engine-fixture"):
         intervals.RET_RANGES.update(saved[2])
         intervals.GETTERS.clear()
         intervals.GETTERS.update(saved[3])
+        if "saved_rf" in locals():
+            intervals.RET_FACTS.clear()
+            intervals.RET_FACTS.update(saved_rf)
         if "saved_pr" in locals():
             intervals.PROMOTED_RANGES.clear()
             intervals.PROMOTED_RANGES.update(saved_pr)
